@@ -97,7 +97,7 @@ func check(which, tier string, dump bool) (code int) {
 			r := ob.NewReport(id)
 			r.Fail("%s", msg)
 			p := rules.Get(id)
-			r.Finish(vdir, tier, seed, time.Since(start).Seconds(), findings, nil, p.Assumptions, p.Explanation)
+			r.Finish(vdir, tier, seed, time.Since(start).Seconds(), findings, nil, p.Assumptions, p.FullExplanation())
 		}
 		return 1
 	}
@@ -234,7 +234,7 @@ func check(which, tier string, dump bool) (code int) {
 			"checker_cmd":     "./run.sh check " + id + " " + tier,
 			"analysed_tree":   "rsync copy of /repo working tree taken at start of this run",
 		}
-		c := r.Finish(vdir, tier, seed, time.Since(start).Seconds(), findings, cov, p.Assumptions, p.Explanation)
+		c := r.Finish(vdir, tier, seed, time.Since(start).Seconds(), findings, cov, p.Assumptions, p.FullExplanation())
 		if c > worst {
 			worst = c
 		}
@@ -287,7 +287,7 @@ func writeManifest() {
 		p := rules.Get(id)
 		text := p.LevelText
 		if text == "" {
-			text = p.Explanation
+			text = p.FullExplanation()
 		}
 		tech := p.Technique
 		if tech == "" {
